@@ -14,7 +14,8 @@ EXPLANATION = ("R13.1 routing table of FlexiLogger::log over brace lists of k<=2
                "adapt_duplication_to_* store into the field the matching region reads; R13.5 enabled() never answers false for a level the "
                "addressed writer accepts."
                " R13.3 also: on a row on which the write to the file writer / additional primary writer failed, both duplication decisions have been taken (a failing primary output does not suppress the duplicates)."
-               " R13.7 stream wiring: what a Logger setter stores for one stream (duplication level, format function) is handed by Logger::build to that stream's parameter of the PrimaryWriter constructor and stored in that stream's field of the MultiWriter / passed to that stream's StdWriter.")
+               " R13.7 stream wiring: what a Logger setter stores for one stream (duplication level, format function) is handed by Logger::build to that stream's parameter of the PrimaryWriter constructor and stored in that stream's field of the MultiWriter / passed to that stream's StdWriter."
+               " R13.8 ceiling and target wiring: max_level() reaches FileLogWriter::max_log_level(); every log_to_* method selects the documented LogTarget (shared configuration-wiring tables, rules/cfgwiring.py).")
 ASSUMPTIONS = ["log::Level/LevelFilter order Off<Error<Warn<Info<Debug<Trace (documented discriminants)", "HashMap::get finds exactly the registered names"]
 NOT_DECIDED = ["what a syslog datagram looks like", "terminal capture of print macros", "lists longer than the unrolling bound (same loop body)"]
 FLOORS = {'R13.1': 1, 'R13.2': 1, 'R13.3': 2, 'R13.4': 3}
@@ -32,6 +33,9 @@ def level_model(L):
 
 
 def run(R, ctx):
+    R.rule('R13.8', 'ceiling and target wiring: max_level() reaches FileLogWriter::max_log_level(); every log_to_* method selects the documented LogTarget')
+    import cfgwiring
+    cfgwiring.config_wiring(R, ctx, 'R13.8', 'C13')
     R.rule('R13.1', 'TABLE(routing in FlexiLogger::log), k-unrolled brace list')
     R.rule('R13.2', 'TABLE(level x ceiling) for every ceiling-bearing LogWriter::write')
     R.rule('R13.3', 'TABLE(Duplicate x Level) for the stderr and the stdout region of MultiWriter::write')
